@@ -305,7 +305,7 @@ impl ToLinker {
         self.consume().await?;
         let linker_sri = self.linker.commit().await?;
         if let Some(sri) = &self.opts.sri {
-            if sri.matches(&linker_sri).is_none() {
+            if linker_sri.matches(sri).is_none() {
                 return Err(ssri::Error::IntegrityCheckError(sri.clone(), linker_sri).into());
             }
         } else {
@@ -446,7 +446,7 @@ impl SyncToLinker {
         let cache = self.cache;
         let linker_sri = self.linker.commit()?;
         if let Some(sri) = &self.opts.sri {
-            if sri.matches(&linker_sri).is_none() {
+            if linker_sri.matches(sri).is_none() {
                 return Err(ssri::Error::IntegrityCheckError(sri.clone(), linker_sri).into());
             }
         } else {
